@@ -3,11 +3,13 @@ Body text does not run into the footnote area (C03 with footnotes), paragraph le
 
 `context.page_bottom` is a *function of the footnotes currently in the area* (`pbOf`; exact since repairs 8db5909
 and 84e5b27: the area is never fragmented, an empty area takes no room). Taking a footnote lowers it, postponing or
-un-laying-out one raises it back (`pbOf_mono`, needs `AreaHyp` and non-negative footnote heights).  The footnote loop
+un-laying-out one raises it back (`pbOf_mono`, needs non-negative footnote heights only since repair 2efefde).  The footnote loop
 of a line therefore ends either with `page_bottom` at least where it was, or with the line itself fitting above the
 new `page_bottom` (`footLoop_bottom`); since the lines of a paragraph are stacked, every line kept by
 `_linebox_layout` — the first line of an empty page excepted — ends above `page_bottom` *as it is when the
-paragraph is done*, i.e. above the footnote area that holds the footnotes called so far (`lineLoopF_fits_final`).
+paragraph is done*, i.e. above the footnote area that holds the footnotes called so far (`lineLoopF_fits_final`,
+`para_fits_final`).  `boxF_pbx`: the exact bookkeeping holds through whole layouts.  `boxF_chain`: the same line
+property for whole layouts of single-child chains of boxes (no sibling boxes, so no stacking argument is needed).
 -/
 import WpModel.Lemmas.FootGeoBox
 
@@ -16,25 +18,25 @@ open Wp Wp.PM
 
 /-- `context.page_bottom` when the footnote area holds `cur`. -/
 def pbOf (c : FCtx) (cur : List Fn) : Rat :=
-  if cur.isEmpty then c.pageH else c.pageH - (areaLayout c.area c.pageH cur).marginHeight
+  if cur.isEmpty then c.pageH else c.pageH - max0 (areaLayout c.area c.pageH cur).marginHeight
 
 /-- The exact bookkeeping: `page_bottom` is `pbOf` of the current footnotes. -/
 def PbX (c : FCtx) (fs : FState) : Prop := PbInv c fs ∧ fs.pageBottom = pbOf c fs.cur
 
 theorem updateArea_pb (c : FCtx) (fs : FState)
     (hpb : (fs.areaH = none ∧ fs.pageBottom = c.pageH) ∨
-      ∃ h, fs.areaH = some h ∧ fs.pageBottom = c.pageH - c.area.marginHeight h) :
+      ∃ h, fs.areaH = some h ∧ fs.pageBottom = c.pageH - max0 (c.area.marginHeight h)) :
     (updateArea c fs).1.pageBottom = pbOf c fs.cur := by
   unfold updateArea pbOf
   rcases hpb with ⟨h1, h2⟩ | ⟨h, h1, h2⟩
   · rw [h1]; dsimp only; rw [h2]; split <;> rfl
   · rw [h1]; dsimp only; rw [h2]
-    have e : c.pageH - c.area.marginHeight h + c.area.marginHeight h = c.pageH := by grind
+    have e : c.pageH - max0 (c.area.marginHeight h) + max0 (c.area.marginHeight h) = c.pageH := by grind
     rw [e]; split <;> rfl
 
 theorem updateArea_pbx (c : FCtx) (fs : FState)
     (hpb : (fs.areaH = none ∧ fs.pageBottom = c.pageH) ∨
-      ∃ h, fs.areaH = some h ∧ fs.pageBottom = c.pageH - c.area.marginHeight h) :
+      ∃ h, fs.areaH = some h ∧ fs.pageBottom = c.pageH - max0 (c.area.marginHeight h)) :
     (updateArea c fs).1.pageBottom = pbOf c (updateArea c fs).1.cur := by
   rw [updateArea_cur]; exact updateArea_pb c fs hpb
 
@@ -106,31 +108,35 @@ theorem areaH_nonneg (a : AreaStyle) (s : Rat) : 0 ≤ areaH a s := by
   exact clamp_nonneg _
 
 theorem pbOf_eq (c : FCtx) (cur : List Fn) (hne : cur ≠ []) :
-    pbOf c cur = c.pageH - c.area.marginHeight (areaH c.area (sumHeights cur)) := by
+    pbOf c cur = c.pageH - max0 (c.area.marginHeight (areaH c.area (sumHeights cur))) := by
   unfold pbOf
   rw [if_neg (by simpa using hne)]
   rfl
 
-theorem pbOf_le_pageH (c : FCtx) (ha : AreaHyp c.area) (cur : List Fn) : pbOf c cur ≤ c.pageH := by
+theorem max0_mono (x y : Rat) (h : x ≤ y) : max0 x ≤ max0 y := by
+  unfold max0; split <;> split <;> grind
+
+theorem pbOf_le_pageH (c : FCtx) (cur : List Fn) : pbOf c cur ≤ c.pageH := by
   by_cases hne : cur = []
   · subst hne; simp [pbOf]
   · rw [pbOf_eq c cur hne]
-    have := areaH_nonneg c.area (sumHeights cur)
-    have := ha.deco
-    simp only [AreaStyle.marginHeight]
+    have := max0_nonneg (c.area.marginHeight (areaH c.area (sumHeights cur)))
     grind
 
 /-- Fewer footnotes (by total height), or none at all: a lower-or-equal area, a higher-or-equal page bottom. -/
-theorem pbOf_mono (c : FCtx) (ha : AreaHyp c.area) (cur cur' : List Fn)
+theorem pbOf_mono (c : FCtx) (cur cur' : List Fn)
     (hs : sumHeights cur' ≤ sumHeights cur) (he : cur = [] → cur' = []) : pbOf c cur ≤ pbOf c cur' := by
   by_cases hne' : cur' = []
   · subst hne'
     have : pbOf c [] = c.pageH := by simp [pbOf]
-    rw [this]; exact pbOf_le_pageH c ha cur
+    rw [this]; exact pbOf_le_pageH c cur
   · have hne : cur ≠ [] := fun h => hne' (he h)
     rw [pbOf_eq c cur hne, pbOf_eq c cur' hne']
-    have := areaH_mono c.area _ _ hs
-    simp only [AreaStyle.marginHeight]
+    have h1 := areaH_mono c.area _ _ hs
+    have h2 : c.area.marginHeight (areaH c.area (sumHeights cur')) ≤
+        c.area.marginHeight (areaH c.area (sumHeights cur)) := by
+      simp only [AreaStyle.marginHeight]; grind
+    have := max0_mono _ _ h2
     grind
 
 theorem pbOf_congr (c : FCtx) (cur cur' : List Fn) (hs : sumHeights cur' = sumHeights cur)
@@ -166,7 +172,7 @@ theorem report_restores (c : FCtx) (fs : FState) (f : Fn) (h : PbX c fs) (hf : 0
       exact List.eq_nil_of_length_eq_zero (by omega)
 
 /-- Un-laying-out never lowers `page_bottom`. -/
-theorem unlayFootnote_pb_mono (c : FCtx) (ha : AreaHyp c.area) (fs : FState) (f : Fn) (h : PbX c fs) :
+theorem unlayFootnote_pb_mono (c : FCtx) (fs : FState) (f : Fn) (h : PbX c fs) :
     fs.pageBottom ≤ (unlayFootnote c fs f).pageBottom := by
   have h2 := (unlayFootnote_pbx c fs f h).2
   rw [h2, h.2]
@@ -177,19 +183,19 @@ theorem unlayFootnote_pb_mono (c : FCtx) (ha : AreaHyp c.area) (fs : FState) (f 
     rw [updateArea_cur]
     split
     · rename_i hc
-      apply pbOf_mono c ha
+      apply pbOf_mono c
       · rw [sumHeights_erase _ f hc]
         have := h.1.1 f hc
         grind
       · intro he; rw [he] at hc; cases hc
     · split <;> exact Rat.le_refl
 
-theorem unlayAll_pb_mono (c : FCtx) (ha : AreaHyp c.area) (G : List Fn) (fs : FState) (h : PbX c fs) :
+theorem unlayAll_pb_mono (c : FCtx) (G : List Fn) (fs : FState) (h : PbX c fs) :
     fs.pageBottom ≤ (unlayAll c fs G).pageBottom := by
   induction G generalizing fs with
   | nil => exact Rat.le_refl
   | cons f rest ih =>
-    have h1 := unlayFootnote_pb_mono c ha fs f h
+    have h1 := unlayFootnote_pb_mono c fs f h
     have h2 := ih _ (unlayFootnote_pbx c fs f h)
     simp only [unlayAll]
     exact Rat.le_trans h1 h2
@@ -264,7 +270,7 @@ theorem fits_after_footLoop (c : FCtx) (guard pie : Bool) (bs lineH Y Y' : Rat) 
 `_linebox_layout` — the first line of an empty page excepted — fits above `context.page_bottom` *as it is when the
 loop ends*, whatever footnotes were laid out, postponed or un-laid-out on the way. -/
 theorem lineLoopF_fits_final (c : FCtx) (st : PStyle) (calls : List Call) (b : BoxSt) (n : Nat) (lineH : Rat)
-    (pie : Bool) (bs : Rat) (k : Nat) (fuel i : Nat) (y : Rat) (s : LineLoop) (fs : FState) (ha : AreaHyp c.area)
+    (pie : Bool) (bs : Rat) (k : Nat) (fuel i : Nat) (y : Rat) (s : LineLoop) (fs : FState)
     (hcalls : ∀ cl ∈ calls, 0 ≤ (cl.m : Rat) * cl.h) (hdeco : 0 ≤ b.bb + b.pb) (hlh : 0 ≤ lineH)
     (hx : PbX c fs) (hfirst : s.lines = [] → i = k)
     (hs : ∀ p ∈ s.lines, LineFitsF c fs bs lineH pie k p)
@@ -280,7 +286,7 @@ theorem lineLoopF_fits_final (c : FCtx) (st : PStyle) (calls : List Call) (b : B
     simp only [outLines] at hp
     have hsub := breakLine_lines_sub st n i s.lines pie s.skip resume
     rw [hb] at hsub
-    exact lineFitsF_mono c _ _ bs lineH pie k p (unlayAll_pb_mono c ha _ fs hx) (hs p (hsub p hp))
+    exact lineFitsF_mono c _ _ bs lineH pie k p (unlayAll_pb_mono c _ fs hx) (hs p (hsub p hp))
   | case3 fuel i y s fs resume newPosY dbd offset overflow hov shift newPosY' lineY mt' fs' hfl ih =>
     have hF := lineFns_height st calls i hcalls
     have hoff : 0 ≤ offset := by
@@ -394,7 +400,7 @@ theorem lineLoopF_fits_final (c : FCtx) (st : PStyle) (calls : List Call) (b : B
     simp only [outLines] at hp
     have hsub := breakLine_lines_sub st n i s.lines pie s.skip resume
     rw [hb] at hsub
-    exact lineFitsF_mono c _ _ bs lineH pie k p (unlayAll_pb_mono c ha _ fs' hfb.1) (hold p (hsub p hp))
+    exact lineFitsF_mono c _ _ bs lineH pie k p (unlayAll_pb_mono c _ fs' hfb.1) (hold p (hsub p hp))
   | case5 fuel i y s fs resume newPosY dbd offset overflow hov shift newPosY' mt' fs' hfl =>
     have hF := lineFns_height st calls i hcalls
     have hfb := footLoop_bottom c (!s.lines.isEmpty || !pie) pie bs (newPosY' + offset) (lineFns st calls i) fs hx hF
@@ -433,27 +439,27 @@ theorem lineLoopF_fits_final (c : FCtx) (st : PStyle) (calls : List Call) (b : B
     simp only [outLines] at hp
     exact hold p hp
 
-theorem finishParaF_pb_mono (c : FCtx) (ha : AreaHyp c.area) (st : PStyle) (calls : List Call) (p : Prep)
+theorem finishParaF_pb_mono (c : FCtx) (st : PStyle) (calls : List Call) (p : Prep)
     (pie : Bool) (id idx n : Nat) (r : LineResult) (fs : FState) (h : PbX c fs) :
     PbX c (finishParaF c st calls p pie id idx n r fs).fs ∧
     fs.pageBottom ≤ (finishParaF c st calls p pie id idx n r fs).fs.pageBottom := by
   unfold finishParaF
   dsimp only
   split
-  · exact ⟨unlayAll_pbx c _ fs h, unlayAll_pb_mono c ha _ fs h⟩
+  · exact ⟨unlayAll_pbx c _ fs h, unlayAll_pb_mono c _ fs h⟩
   · split
     · split
-      · exact ⟨unlayAll_pbx c _ fs h, unlayAll_pb_mono c ha _ fs h⟩
+      · exact ⟨unlayAll_pbx c _ fs h, unlayAll_pb_mono c _ fs h⟩
       · exact ⟨h, Rat.le_refl⟩
     · split
-      · exact ⟨unlayAll_pbx c _ fs h, unlayAll_pb_mono c ha _ fs h⟩
+      · exact ⟨unlayAll_pbx c _ fs h, unlayAll_pb_mono c _ fs h⟩
       · exact ⟨h, Rat.le_refl⟩
 
 /-- **A paragraph and the footnotes it calls** (`block_level_layout` of a paragraph): every line of the fragment
 returned — the first line excepted when the paragraph started an empty page — ends above `context.page_bottom` as
 the layout leaves it, i.e. above the footnote area holding every footnote taken so far on the page. -/
 theorem para_fits_final (id n : Nat) (lineH : Rat) (st : PStyle) (calls : List Call) (hd : st.DecoOk)
-    (hh : ∀ cl ∈ calls, 0 ≤ (cl.m : Rat) * cl.h) (hlh : 0 ≤ lineH) (c : FCtx) (ha : AreaHyp c.area) (idx : Nat)
+    (hh : ∀ cl ∈ calls, 0 ≤ (cl.m : Rat) * cl.h) (hlh : 0 ≤ lineH) (c : FCtx) (idx : Nat)
     (y bs : Rat) (skip : Option Resume) (cb pie : Bool) (adjL : List Rat) (fs : FState) (hx : PbX c fs) (f : Frag)
     (hf : (layoutBoxF c (.para id n lineH st calls) idx y bs skip cb pie adjL fs).r.frag = some f) :
     PbX c (layoutBoxF c (.para id n lineH st calls) idx y bs skip cb pie adjL fs).fs ∧
@@ -468,7 +474,7 @@ theorem para_fits_final (id n : Nat) (lineH : Rat) (st : PStyle) (calls : List C
   -- the line loop
   have hloop := lineLoopF_fits_final c st calls p.b n lineH pie p.bs (skipLine (subSkipOf skip))
     (n - skipLine (subSkipOf skip)) (skipLine (subSkipOf skip)) (lineStart p.cur p.posY)
-    { lines := [], posY := lineStart p.cur p.posY, skip := subSkipOf skip, mt := p.b.mt, dbd := p.dbd } fs ha hh hdeco
+    { lines := [], posY := lineStart p.cur p.posY, skip := subSkipOf skip, mt := p.b.mt, dbd := p.dbd } fs hh hdeco
     hlh hx (fun _ => rfl) (by simp) (by simp)
   obtain ⟨m, hcont⟩ := lineLoopF_contiguous c st calls p.b n lineH pie p.bs (skipLine (subSkipOf skip))
     (n - skipLine (subSkipOf skip)) (skipLine (subSkipOf skip)) (lineStart p.cur p.posY)
@@ -488,7 +494,7 @@ theorem para_fits_final (id n : Nat) (lineH : Rat) (st : PStyle) (calls : List C
     at hloop hcont hf ⊢
   obtain ⟨hxo, hfit⟩ := hloop
   dsimp only at hf ⊢
-  obtain ⟨hxf, hmono⟩ := finishParaF_pb_mono c ha st calls p pie id idx n (lineResultOf n o.1) o.2 hxo
+  obtain ⟨hxf, hmono⟩ := finishParaF_pb_mono c st calls p pie id idx n (lineResultOf n o.1) o.2 hxo
   refine ⟨hxf, ?_⟩
   simp only [finishParaF_r] at hf
   obtain ⟨g, rfl⟩ := finishPara_frag' _ _ _ _ _ _ _ _ _ hf
@@ -673,5 +679,218 @@ theorem placeReported_pbx (c : FCtx) (L : List Fn) (i : Nat) (fs : FState) (h : 
     · have h2 := reportFootnote_pbx c _ f h1 hf
       exact ⟨⟨h2.1.1, h2.1.2.1, fun g hg => hL g hg⟩, h2.2⟩
     · exact ih _ _ h1 (fun g hg => hL g (by simp [hg]))
+
+/-! ### whole layouts of single-child chains: no sibling, so no stacking argument is needed -/
+
+mutual
+/-- Every block of the subtree has at most one child (a chain of boxes around one paragraph). -/
+def Single : FootBox → Prop
+  | .para _ _ _ _ _ => True
+  | .block _ _ kids => kids.length ≤ 1 ∧ SingleList kids
+def SingleList : List FootBox → Prop
+  | [] => True
+  | b :: bs => Single b ∧ SingleList bs
+end
+
+mutual
+/-- Lines have non-negative heights. -/
+def LineHOk : FootBox → Prop
+  | .para _ _ lineH _ _ => 0 ≤ lineH
+  | .block _ _ kids => LineHOkList kids
+def LineHOkList : List FootBox → Prop
+  | [] => True
+  | b :: bs => LineHOk b ∧ LineHOkList bs
+end
+
+theorem linesOk_pb_mono (c : FCtx) (g g' : FState) (bs : Rat) (L : List PlacedLine)
+    (h : g.pageBottom ≤ g'.pageBottom) (hL : LinesOk (ctxOf c g) bs L) : LinesOk (ctxOf c g') bs L := by
+  intro p hp
+  rcases hL p hp with h1 | h1
+  · exact Or.inl h1
+  · exact Or.inr (fits_of_pb_le c g g' bs _ h h1)
+
+theorem finishBlockF_pb_mono (c : FCtx) (st : PStyle) (rest : List FootBox) (p : Prep) (pie : Bool) (id idx : Nat)
+    (out : KidsOutcome) (fs : FState) (h : PbX c fs) :
+    fs.pageBottom ≤ (finishBlockF c st rest p pie id idx out fs).fs.pageBottom := by
+  unfold finishBlockF
+  cases out with
+  | aborted page s => exact unlayAll_pb_mono c _ fs h
+  | stopped resume s =>
+    dsimp only
+    split
+    · exact unlayAll_pb_mono c _ fs h
+    · exact Rat.le_refl
+  | finished s => exact Rat.le_refl
+
+theorem firstPassUnlay_pb_mono (c : FCtx) (r : LayoutResult) (fp : FirstPass) (fs : FState) (h : PbX c fs) :
+    fs.pageBottom ≤ (firstPassUnlay c r fp fs).pageBottom := by
+  unfold firstPassUnlay unlayFrag
+  split
+  · split
+    · exact Rat.le_refl
+    · exact unlayAll_pb_mono c _ fs h
+  · exact Rat.le_refl
+  · split
+    · exact Rat.le_refl
+    · exact unlayAll_pb_mono c _ fs h
+
+theorem earlierUnlay_pb_mono (c : FCtx) (pb : Brk) (s : KidsLoop) (frag : Option Frag) (fs : FState) (h : PbX c fs) :
+    fs.pageBottom ≤ (earlierUnlay c pb s frag fs).pageBottom := by
+  unfold earlierUnlay
+  split
+  · exact Rat.le_refl
+  · split
+    · split
+      · exact unlayAll_pb_mono c _ fs h
+      · exact Rat.le_refl
+    · exact Rat.le_refl
+
+mutual
+/-- **Body text does not run into the footnote area, whole layouts of single-child chains**: every line of the
+fragment returned by `block_level_layout` — the first line excepted when the layout started an empty page — ends
+above `context.page_bottom` as the layout leaves it (the footnote area holding every footnote taken so far), through
+nested blocks with any decorations, the second layout with a larger bottom space and `find_earlier_page_break`. -/
+theorem boxF_chain : (box : FootBox) → Single box → DecoOk box.erase → HeightsOk box → LineHOk box →
+    ∀ (c : FCtx) (idx : Nat) (y bs : Rat) (skip : Option Resume) (cb pie : Bool) (adjL : List Rat) (fs : FState),
+    PbX c fs →
+    PbX c (layoutBoxF c box idx y bs skip cb pie adjL fs).fs ∧
+    ∀ f, (layoutBoxF c box idx y bs skip cb pie adjL fs).r.frag = some f →
+      LinesOk (ctxOf c (layoutBoxF c box idx y bs skip cb pie adjL fs).fs) bs (placedLines f pie box.erase)
+  | .para id n lineH st calls => by
+    intro _ hd hh hl c idx y bs skip cb pie adjL fs hx
+    simp only [FootBox.erase, DecoOk] at hd
+    simp only [HeightsOk] at hh
+    simp only [LineHOk] at hl
+    refine ⟨boxF_pbx _ (by simpa [HeightsOk] using hh) c idx y bs skip cb pie adjL fs hx, ?_⟩
+    intro f hf
+    exact (para_fits_final id n lineH st calls hd hh hl c idx y bs skip cb pie adjL fs hx f hf).2
+  | .block id st kids => by
+    intro hs hd hh hl c idx y bs skip cb pie adjL fs hx
+    simp only [Single] at hs
+    simp only [FootBox.erase, DecoOk] at hd
+    simp only [HeightsOk] at hh
+    simp only [LineHOk] at hl
+    simp only [layoutBoxF]
+    have hk := kidsF_chain kids hs.1 hs.2 hd.2 hh hl c st kids 0 (skipIdxOf skip)
+      (prepare (ctxOf c fs) st y bs skip cb pie adjL).bs pie
+      { newChildren := [], posY := (prepare (ctxOf c fs) st y bs skip cb pie adjL).posY,
+        adjL := (prepare (ctxOf c fs) st y bs skip cb pie adjL).adjL,
+        cur := (prepare (ctxOf c fs) st y bs skip cb pie adjL).cur,
+        curIsL := (prepare (ctxOf c fs) st y bs skip cb pie adjL).curIsL,
+        nextPage := { brk := none, page := none }, skip := subSkipOf skip } fs hx rfl (by intro j; simp)
+    refine ⟨finishBlockF_pbx _ _ _ _ _ _ _ _ _ hk.1, ?_⟩
+    intro f hf
+    simp only [finishBlockF_r] at hf
+    obtain ⟨g, rfl⟩ := finishBlock_frag _ _ _ _ _ _ _ _ hf
+    simp only [placedLines, FootBox.erase]
+    apply linesOk_pb_mono c _ _ bs _ (finishBlockF_pb_mono _ _ _ _ _ _ _ _ _ hk.1)
+    apply linesOk_mono _ bs _ _ (prepare_bs_le (ctxOf c fs) st y bs skip cb pie adjL hd.1)
+    exact hk.2
+theorem kidsF_chain : (rest : List FootBox) → rest.length ≤ 1 → SingleList rest → DecoOkList (eraseList rest) →
+    HeightsOkList rest → LineHOkList rest → ∀ (c : FCtx) (st : PStyle) (all : List FootBox) (index skipIdx : Nat)
+    (bs : Rat) (pie : Bool) (s : KidsLoop) (fs : FState), PbX c fs → s.newChildren = [] →
+    (∀ j, rest[j]? = all[index + j]?) →
+    PbX c (layoutKidsF c st rest index skipIdx bs pie s fs).2 ∧
+    LinesOk (ctxOf c (layoutKidsF c st rest index skipIdx bs pie s fs).2) bs
+      (placedLinesList (layoutKidsF c st rest index skipIdx bs pie s fs).1.state.newChildren pie (eraseList all))
+  | [] => by
+    intro _ _ _ _ _ c st all index skipIdx bs pie s fs hx hnil _
+    simp only [layoutKidsF, KidsOutcome.state, hnil, placedLinesList]
+    exact ⟨hx, linesOk_nil _ bs⟩
+  | child :: rest => by
+    intro hlen hs hd hh hl c st all index skipIdx bs pie s fs hx hnil hall
+    have hrest : rest = [] := by
+      cases rest with
+      | nil => rfl
+      | cons a b => simp at hlen
+    subst hrest
+    simp only [SingleList] at hs
+    simp only [eraseList, DecoOkList] at hd
+    simp only [HeightsOkList] at hh
+    simp only [LineHOkList] at hl
+    have hchild : (eraseList all)[index]? = some child.erase := by
+      have := hall 0
+      rw [eraseList_getElem]
+      simp only [List.getElem?_cons_zero, Nat.add_zero] at this
+      rw [← this]; rfl
+    have hempty : LinesOk (ctxOf c fs) bs (placedLinesList s.newChildren pie (eraseList all)) := by
+      rw [hnil]; simp only [placedLinesList]; exact linesOk_nil _ bs
+    unfold layoutKidsF
+    split
+    · simp only [layoutKidsF, KidsOutcome.state, hnil, placedLinesList]
+      exact ⟨hx, linesOk_nil _ bs⟩
+    · dsimp only
+      split
+      · simp only [KidsOutcome.state, hnil, placedLinesList]
+        exact ⟨hx, linesOk_nil _ bs⟩
+      · have hR := boxF_chain child hs.1 hd.1 hh.1 hl.1 c index s.posY bs s.skip st.isRoot
+          (pie && s.newChildren.isEmpty) s.cur fs hx
+        have hdeco1 := fun f => layoutBoxF_frag_deco c child index s.posY bs s.skip st.isRoot
+          (pie && s.newChildren.isEmpty) s.cur fs f
+        generalize layoutBoxF c child index s.posY bs s.skip st.isRoot (pie && s.newChildren.isEmpty) s.cur fs = R1
+          at hR hdeco1 ⊢
+        split
+        · -- first pass kept (or discarded) the child
+          rename_i frag posY hfp
+          rw [hfp]
+          have hx1 := firstPassUnlay_pbx c R1.r (.keep frag posY) R1.fs hR.1
+          have hm1 := firstPassUnlay_pb_mono c R1.r (.keep frag posY) R1.fs hR.1
+          have hfrag : ∀ f, frag = some f → LinesOk (ctxOf c (firstPassUnlay c R1.r (.keep frag posY) R1.fs)) bs
+              (placedLines f (pie && s.newChildren.isEmpty) child.erase) := by
+            intro f hf
+            rcases firstPass_keep _ _ _ _ _ _ _ hfp with h | h
+            · rw [h] at hf; cases hf
+            · rw [h] at hf
+              exact linesOk_pb_mono c _ _ bs _ hm1 (hR.2 f hf)
+          have hs0 : LinesOk (ctxOf c (firstPassUnlay c R1.r (.keep frag posY) R1.fs)) bs
+              (placedLinesList s.newChildren pie (eraseList all)) := by
+            rw [hnil]; simp only [placedLinesList]; exact linesOk_nil _ bs
+          split
+          · rename_i out s3 heq
+            refine ⟨earlierUnlay_pbx _ _ _ _ _ hx1,
+              linesOk_pb_mono c _ _ bs _ (earlierUnlay_pb_mono _ _ _ _ _ hx1) ?_⟩
+            refine (concludeKid_fits _ bs (eraseList all) index pie _ child.erase _ _ _ hchild ?_ ?_).1 out s3 heq
+            · simpa using hs0
+            · simpa using hfrag
+          · rename_i s3 heq
+            simp only [layoutKidsF, KidsOutcome.state]
+            refine ⟨hx1, ?_⟩
+            refine (concludeKid_fits _ bs (eraseList all) index pie _ child.erase _ _ _ hchild ?_ ?_).2 s3 heq
+            · simpa using hs0
+            · simpa using hfrag
+        · -- second layout with a larger bottom space
+          rename_i bs' hfp
+          rw [hfp]
+          obtain ⟨f1, hf1, hbs'⟩ := firstPass_redo _ _ _ _ _ _ hfp
+          have hle : bs ≤ bs' := by
+            have h1 := hdeco1 f1 hf1
+            have h2 := (DecoOk.st child.erase hd.1).1
+            rw [st_erase] at h2
+            rcases h1 with ⟨h3, h4⟩ | ⟨h3, h4⟩ <;> rw [hbs', h3, h4] <;> grind
+          have hx1 := firstPassUnlay_pbx c R1.r (.redo bs') R1.fs hR.1
+          have hR2 := boxF_chain child hs.1 hd.1 hh.1 hl.1 c index s.posY bs' s.skip st.isRoot
+            (pie && s.newChildren.isEmpty) (s.setCur R1.r.adjL s.curIsL).cur (firstPassUnlay c R1.r (.redo bs') R1.fs) hx1
+          generalize layoutBoxF c child index s.posY bs' s.skip st.isRoot (pie && s.newChildren.isEmpty)
+            (s.setCur R1.r.adjL s.curIsL).cur (firstPassUnlay c R1.r (.redo bs') R1.fs) = R2 at hR2 ⊢
+          have hfrag : ∀ f, R2.r.frag = some f →
+              LinesOk (ctxOf c R2.fs) bs (placedLines f (pie && s.newChildren.isEmpty) child.erase) := by
+            intro f hf
+            exact linesOk_mono _ bs bs' _ hle (hR2.2 f hf)
+          have hs0 : LinesOk (ctxOf c R2.fs) bs (placedLinesList s.newChildren pie (eraseList all)) := by
+            rw [hnil]; simp only [placedLinesList]; exact linesOk_nil _ bs
+          split
+          · rename_i out s3 heq
+            refine ⟨earlierUnlay_pbx _ _ _ _ _ hR2.1,
+              linesOk_pb_mono c _ _ bs _ (earlierUnlay_pb_mono _ _ _ _ _ hR2.1) ?_⟩
+            refine (concludeKid_fits _ bs (eraseList all) index pie _ child.erase _ _ _ hchild ?_ ?_).1 out s3 heq
+            · simpa using hs0
+            · simpa using hfrag
+          · rename_i s3 heq
+            simp only [layoutKidsF, KidsOutcome.state]
+            refine ⟨hR2.1, ?_⟩
+            refine (concludeKid_fits _ bs (eraseList all) index pie _ child.erase _ _ _ hchild ?_ ?_).2 s3 heq
+            · simpa using hs0
+            · simpa using hfrag
+end
 
 end Wp.PMF
